@@ -53,6 +53,7 @@ PROVED_FAMILIES = ['plurality', 'ha_d_hondt', 'ha_sainte_lague', 'ha_imperiali',
                    'openlist_tiebreaker_plurality', 'threshold_alternative', 'aux_input_order',
                    'lr_imperiali_subtract', 'lr_hagenbach_bischoff_subtract', 'qd_imperiali_subtract',
                    'baldwin', 'benham', 'tideman_alternative', 'allocated_score_hare', 'approval_pav', 'approval_spav', 'score_mean', 'score_sum0', 'score_median', 'majority_judgment_plus', 'star']
+PROVED_FAMILIES += [f + '_sparse' for f in PROVED_FAMILIES if f.startswith('condorcet_') or f in ('smith_set', 'schwartz_set')]
 NAMES = Names(prefix='cand')
 POSITIONAL_CFG = {'positional_borda': {'s': 'Borda', 'base': 1}, 'positional_borda0': {'s': 'Borda', 'base': 0},
               'positional_dowdall': {'s': 'Dowdall'}, 'positional_geometric': {'s': 'Geometric', 'base': 2},
@@ -187,7 +188,7 @@ NOT_REACHED = {
 PARTIAL_FAMILIES = {
     **{f'condorcet_rankedpairs_{k}': 'rankedpairs_shape (exactly n places for n >= 3) is FALSE of the code: rankedpairs_short_witness, open '
        'finding; proved: rankedpairs_shape_partial (everything but the length, never shorter than 2), rankedpairs_shape_le_two, rankedpairs_refusals'
-       for k in ('winvotes', 'margins', 'pwo')},
+       for k in ('winvotes', 'margins', 'pwo', 'winvotes_sparse', 'margins_sparse', 'pwo_sparse')},
     'majority_judgment': 'mjDefault_refusals (only declared refusals) is FALSE of the code (StatisticsError: mj_refusals_witness, open finding '
                          'C08-mj-statistics-error); proved: mj_shape (full), mjDefault_refusals_partial (VotingSystemError or StatisticsError)',
     'score_median_trunc_quarter': 'score_refusals needs truncation = 0: with truncation the code raises StatisticsError / ZeroDivisionError '
@@ -262,6 +263,17 @@ def generate(rng, tier):
         k = rng.randint(1, 3)
         yield {'op': 'shape', 'family': fam, 'prof': [[i, str(k)] for i in range(m)], 'n': rng.randint(1, m - 1),
                '_tags': ['dist', 'all_equal']}
+    # directed: the withdrawal loop of on_overaward='subtract' run SEVERAL times over the same tied group (a low quota over-awards by
+    # two or more seats while the smallest remainders are exactly equal): the tie entry is created, decremented and deleted again
+    for fam in ['lr_imperiali_subtract', 'qd_imperiali_subtract', 'lr_hagenbach_bischoff_subtract']:
+        for t in range(30 if tier == 'quick' else 600):
+            g = rng.choice([2, 2, 2, 3])
+            k = rng.choice([1, 2, 5, 10, 12])
+            vals = [k] * g + [rng.choice([0, 0, 1, k // 2]) for _ in range(rng.choice([0, 0, 1, 2]))]
+            rng.shuffle(vals)
+            w = rng.choice([1, 1, 1, 10 ** 18 + 3, Fraction(1, 3)])
+            yield {'op': 'shape', 'family': fam, 'prof': [[i, num_str(v * w)] for i, v in enumerate(vals)],
+                   'n': rng.randint(1, len(vals)), '_tags': ['dist', 'subtract_repeated_tie']}
     # directed: open lists with MORE candidates over the jump threshold than seats and list leaders that do not jump (the party
     # list is in descending id order, the votes are independent of it): the cut among the jumpers / list-precedence branches
     for f in F:
@@ -423,8 +435,19 @@ def nontrivial(case, obs):
     return not (isinstance(obs, dict) and 'err' in obs)
 
 
+def _pairwise(case):
+    """the pairwise dictionary the family's REAL converter makes of the ranked profile (both modes of unranked_at_bottom)"""
+    import votelib.convert as cv
+    pw = cv.RankedToCondorcetVotes(unranked_at_bottom=fams()[case['family']].at_bottom).convert(fam_mod.build('ranked', case['prof'], NAMES))
+    return [[NAMES.i(a), NAMES.i(b), num_str(w)] for (a, b), w in pw.items()]
+
+
+def _bf(f):
+    return f[:-len('_sparse')] if f.endswith('_sparse') else f
+
+
 def model_line(case):
-    f = case['family']
+    f = _bf(case['family'])
     if f == 'plurality':
         return {'op': 'plurality', 'n': case['n'], 'votes': case['prof']}
     if f in PROVED_FAMILIES and f.startswith('ha_'):
@@ -436,10 +459,7 @@ def model_line(case):
     if f.startswith('condorcet_') and f[len('condorcet_'):] in CONDORCET_MODELLED:
         # the evaluator's admissible vote type is the pairwise dictionary: convert with the REAL converter (C13) and send
         # the dictionary in its insertion order to the C05 model of the evaluator
-        import votelib.convert as cv
-        pw = cv.RankedToCondorcetVotes().convert(fam_mod.build('ranked', case['prof'], NAMES))
-        return {'op': 'eval', 'name': f[len('condorcet_'):], 'n': case['n'],
-                'votes': [[NAMES.i(a), NAMES.i(b), num_str(w)] for (a, b), w in pw.items()]}
+        return {'op': 'eval', 'name': f[len('condorcet_'):], 'n': case['n'], 'votes': _pairwise(case)}
     if f in POSITIONAL:
         return {'op': 'positional_plurality', 'scorer': POSITIONAL_CFG[f], 'votes': case['prof'], 'n': case['n']}
     if f in ('approval_av', 'approval_sav'):
@@ -472,10 +492,7 @@ def model_line(case):
         return {'op': 'seatless', 'votes': case['prof'], 'prev': None, 'members': [], 'props': [],
                 'sel': {'k': 'alt', 'parts': [{'k': 'abs', 't': '2', 'eq': True}, {'k': 'rel', 't': '1/5', 'eq': True}]}}
     if f in ('condorcet_winner', 'smith_set', 'schwartz_set'):
-        import votelib.convert as cv
-        pw = cv.RankedToCondorcetVotes().convert(fam_mod.build('ranked', case['prof'], NAMES))
-        return {'op': {'condorcet_winner': 'cw', 'smith_set': 'smith', 'schwartz_set': 'schwartz'}[f],
-                'votes': [[NAMES.i(a), NAMES.i(b), num_str(w)] for (a, b), w in pw.items()]}
+        return {'op': {'condorcet_winner': 'cw', 'smith_set': 'smith', 'schwartz_set': 'schwartz'}[f], 'votes': _pairwise(case)}
     if f == 'benham' and case['n'] == 1:
         return {'op': 'benham', 'profile': case['prof']}
     if f == 'tideman_alternative':
@@ -531,13 +548,13 @@ def compare(case, iobs, mobs):
     if (case['family'] in POSITIONAL + ('baldwin', 'bucklin', 'oklahoma') and has_shared(case['prof'])) or case['family'] in ('approval_av', 'approval_sav'):
         a, b = sel_unordered(iobs), sel_unordered(mobs)
         return None if a == b else f'impl={json.dumps(a)} model={json.dumps(b)} (order-insensitive: frozenset ballots)'
-    if case['family'].startswith('condorcet_'):
+    if case['family'].startswith('condorcet_') and not case['family'].startswith('condorcet_winner'):
         import props.C05 as P05
-        return P05.compare({'op': 'eval', 'name': case['family'][len('condorcet_'):]}, iobs, mobs)
+        return P05.compare({'op': 'eval', 'name': _bf(case['family'])[len('condorcet_'):]}, iobs, mobs)
     if case['family'] == 'threshold_alternative':
         # candidates of equal mean rank come in the iteration order of a Python set
         a, b = (iobs if isinstance(iobs, dict) else sorted(iobs)), (mobs if isinstance(mobs, dict) else sorted(mobs))
-    elif case['family'] in ('condorcet_winner', 'smith_set', 'schwartz_set'):
+    elif _bf(case['family']) in ('condorcet_winner', 'smith_set', 'schwartz_set'):
         # the order inside the set follows the Copeland ordering, ties in dict order: compare as the code returns it
         a, b = canon(iobs), canon(mobs)
     elif case['family'].startswith(('ha_', 'lr_', 'qd_')) or case['family'] == 'stv_dist_gregory_droop':
